@@ -410,6 +410,8 @@ PROPS = {
                 {"name": "dial-checkInterface", "file": "internal/system/dialer.go", "pattern": r"\bcheckInterface\(ifi, ifi\.Addrs\)", "repl": "vkCheckInterface(ifi, ifi.Addrs)", "count": 1},
                 {"name": "dial-dialNDP", "file": "internal/system/dialer.go", "pattern": r"\bdialNDP\(ifi\)", "repl": "vkDialNDP(ifi)", "count": 1}]},
             e2e_part("TestVerif_C10main"),
+            {"pkg": "internal/system", "files": ["system/zz_verif_policy_test.go"], "run": "TestVerif_C10real", "old_timers": True, "shards": {"quick": 1, "thorough": 4},
+             "patches": DIAL_PATCHES},
             {"pkg": "internal/corerad", "run": "TestVerif_C10live", "shards": {"quick": 4, "thorough": 8},
              "files": ["corerad/zz_verif_C12_test.go", "corerad/zz_verif_sim_test.go", "corerad/zz_verif_adv_test.go", "corerad/zz_verif_mon_test.go",
                        "corerad/zz_verif_C06_test.go", "corerad/zz_verif_C07_test.go", "corerad/zz_verif_C09_test.go", "corerad/zz_verif_wire_test.go", "corerad/zz_verif_C10_test.go"]},
@@ -612,3 +614,5 @@ PROPS["C06"]["rule"] += ' Real-clock part (1 / 10 cases of 32 simultaneous scena
 PROPS["C07"]["rule"] += " Real-clock part (1 / 10 cases of 32 simultaneous scenarios, 9..12 s each), built with the timer channels of the shipped binary (the module says go 1.22: asynctimerchan=1, whereas the bubble parts need asynctimerchan=0): the same runs as C06's: every solicitation from a specified source read at least 2 s before the stop or link change got exactly one unicast RA, and no RA is sent to ::."
 for _id in ("C05", "C06", "C07"):
     PROPS[_id]["assumptions"] = list(PROPS[_id]["assumptions"]) + [REAL_TIMERS]
+PROPS["C10"]["rule"] += " Real-clock part (1 / 10 cases of 24 simultaneous Dial runs, each at most 8 s by the model, no cancellation), built with the timer channels of the shipped binary: the sequence of attempts, task runs and clean-ups and the result must be the reference policy's, and no step may come earlier than the policy's waits allow."
+PROPS["C10"]["assumptions"] = list(PROPS["C10"]["assumptions"]) + [REAL_TIMERS]
